@@ -241,7 +241,7 @@ func TestSemanticsFromAndCTEs(t *testing.T) {
 		{`select n0.id, e.id from node n0 join lateral (select e0.id from edge e0 where e0.start_id = n0.id offset 0) e on true order by 1, 2`, `1 | 10 ; 1 | 12 ; 2 | 11 ; 3 | 13`},
 		{`select n0.id, e.id from node n0 left join lateral (select e0.id from edge e0 where e0.start_id = n0.id and e0.kind_id = 4) e on true order by 1`, `1 | 12 ; 2 | null ; 3 | null`},
 		{`select n0.id from node n0, (select e0.id from edge e0 where e0.start_id = n0.id) e`, `ERR:binding`}, // not LATERAL
-		{`select a.id from node a, node b join node c on a.id = c.id`, `ERR:binding`}, // a not visible in ON
+		{`select a.id from node a, node b join node c on a.id = c.id`, `ERR:binding`},                         // a not visible in ON
 		{`select a.id from node a join node b on true join node c on a.id = c.id and b.id = c.id order by 1`, `1 ; 2 ; 3`},
 		{`select id from node a, node b`, `ERR:binding`}, // ambiguous
 		{`select a.id from node a, node a`, `ERR:binding`},
@@ -381,7 +381,7 @@ func TestPathFunctions(t *testing.T) {
 	}
 	for _, c := range []struct{ root, ids, nodes, edges string }{
 		{"1", "10, 11", "1,2,3", "10,11"},
-		{"3", "10, 11", "3,2,1", "11,10"},       // root touches the last edge: walk backwards
+		{"3", "10, 11", "3,2,1", "11,10"},          // root touches the last edge: walk backwards
 		{"1", "10, 11, 13", "1,2,3,3", "10,11,13"}, // self loop at the end
 		{"2", "", "2", ""},
 		{"1", "11", "1", ""}, // root does not touch any edge
